@@ -3,6 +3,7 @@ ITERATION order is drawn from a choice vector (symbolic under CrossHair): a Fish
 step k takes element (choice mod remaining).  Any order of a small identity-/str-hashed set is reachable
 for some allocation history or PYTHONHASHSEED, so 'for all choice vectors' covers 'for all processes'."""
 import sys
+from collections.abc import MutableSet
 
 CHOICES = []
 POS = [0]
@@ -22,7 +23,13 @@ def _next():
     return 0
 
 
-class NondetSet:
+class NondetSet(MutableSet):
+    """(MutableSet supplies | & - ^ <= == isdisjoint ... on top of the primitives below)"""
+
+    @classmethod
+    def _from_iterable(cls, it):
+        return cls(it)
+
     def __init__(self, it=()):
         self._items = []
         for x in it:
@@ -72,14 +79,32 @@ class NondetSet:
         return f"NondetSet({self._items})"
 
 
-def install():
+def targets():
+    """the connectable modules, plus every loaded hdl21 module whose CURRENT source calls `set(` (regenerated per run)"""
     import hdl21  # noqa: F401
-    for n in TARGETS:
+    out = list(TARGETS)
+    for n, m in list(sys.modules.items()):
+        if n.startswith("hdl21.") and n not in out and ".tests" not in n and getattr(m, "__file__", None):
+            try:
+                src = open(m.__file__).read()
+            except OSError:
+                continue
+            if "set(" in src.replace("_set(", "").replace("setattr(", ""):
+                out.append(n)
+    return out
+
+
+INSTALLED = []
+
+
+def install():
+    INSTALLED[:] = targets()
+    for n in INSTALLED:
         sys.modules[n].set = NondetSet
 
 
 def uninstall():
-    for n in TARGETS:
+    for n in INSTALLED or TARGETS:
         m = sys.modules.get(n)
         if m is not None and "set" in vars(m):
             del m.set
